@@ -4,7 +4,7 @@ from ..framework import Case, run_impl_par
 from ..common import hexs
 from .. import lzhenc
 
-LEAN_MODULES = ["Op2Proofs.Props.C04"]
+LEAN_MODULES = ["Op2Proofs.Props.C04", "Op2Proofs.Props.C04_Gen"]
 RULE = ("inputs: output of an independent (Python) LZSS+adaptive-Huffman encoder over token lists that cover every match "
         "length 3..60, every distance class of the offset code and distances around the window wrap, payloads that wrap the "
         "4 KiB window several times, runs of one byte, encoder output that crosses the 65221-update capacity, random byte "
@@ -30,7 +30,13 @@ PROVED = ("for EVERY byte string and EVERY finite schedule of GetData(k)/GetInte
           "Spec.encode's bytes ends normally, its output begins with the payload, and it reads fewer than 8 codes beyond the "
           "payload's - at most one per zero padding bit of the last byte (C04_encoder_padding_codes); GetData(|payload|) on the "
           "encoded bytes returns the payload (C04_encoder_getData); lemmas: packed bits read back by bitAt with zero padding, "
-          "GetNextCode along the encoder's root-to-leaf bits returns the symbol, GetRepeatOffset reads back every 12-bit offset code")
+          "GetNextCode along the encoder's root-to-leaf bits returns the symbol, GetRepeatOffset reads back every 12-bit offset code; "
+          "C04_Gen (bodies regenerated from the clang AST on every run, Gen/Bits.lean): BitStreamReader::ReadNextBit / ReadNext8Bits "
+          "(aligned, unaligned, zero past the end) equal the pure bit stream readBit / read8 on every state satisfying the register "
+          "invariant and re-establish it, EndOfStream / GetBitReadPos / the constructor's size arithmetic and 2^61 guard; HuffLZ: "
+          "WriteCharToBuffer (store index, (w+1) mod 4096), GetInternalBuffer (pointer offset, size, new read index), the first test of "
+          "FillDecompressBuffer's loop (unread < maxFill), GetRepeatOffset's arithmetic (upper*64 + low 6 bits) equal put / getInternal / "
+          "fillLoop's guard / repeatOffset; each lemma is vacuous when its function leaves the translator's fragment")
 PARTIAL = ("the encoder round-trip theorem is about the Lean encoder Spec.encode (own copy of the adaptive tree, MSB-first packing); the "
            "harness's Python / C++ encoders are tied to it by the three-encoder / payload-prefix correspondence, and payloads longer "
            "than 65214 tokens (where the counters fill) are outside the theorem; the reference decoder shares the symbol decoding (tree walk along the bit stream, tree update, offset code) with the "
